@@ -58,12 +58,16 @@ def expected_output(names, edges):
     return sorted(lines)
 
 
-def check_graph(exe, gi, names, edges, bound):
+def check_graph(exe, gi, names, edges, bound, relative=False):
     n = len(names)
-    tag = f"c20-g{n}-{gi}"
+    tag = f"c20-g{n}-{gi}" + ("-rel" if relative else "")
     files = projects.c20_project(names, edges)
     entry = projects.write_project(os.path.join(vlib.BUILD, "proj", tag), files)
-    ex = sched.explore(exe, entry, tag, bound, nworkers=1, replay_every=4)
+    if relative:
+        # `cd project && erg main.er`: the entry module's path is relative
+        ex = sched.explore(exe, "main.er", tag, bound, nworkers=1, replay_every=4, cwd=os.path.dirname(entry))
+    else:
+        ex = sched.explore(exe, entry, tag, bound, nworkers=1, replay_every=4)
     res = {"names": names, "edges": edges, "files": files, "schedules": ex.executions, "decision_points": ex.decision_points, "orders": len(ex.event_orders),
            "replays": ex.replays_checked, "replay_mismatch": ex.replay_mismatch, "problems": [], "threads": sorted(ex.thread_names), "sample": ex.sample_trace}
     base = None
